@@ -372,7 +372,25 @@ func buildEntries() []Entry {
 	var pkb []byte
 	mon.Guard(func() { pkb = must(pk.Marshal()) })
 	es = append(es, Entry{Name: "nbtns.NBTNSPacket.Unmarshal.large", Seeds: pointerAmplification(true), Call: func(in []byte) { (&nbtns.NBTNSPacket{}).Unmarshal(in) }, Large: true})
-	add("nbtns.NBTNSPacket.Unmarshal", nonNil(pkb, append([]byte{0, 1, 0x01, 0x10, 0, 1, 0, 0, 0, 0, 0, 0, 0x20}, append([]byte("FHEPFCELFDFEEBFEEJEPEOCACACACACA"), 0, 0, 0x20, 0, 1)...)), func(in []byte) { (&nbtns.NBTNSPacket{}).Unmarshal(in) })
+	// two records: the RDATA of the first holds compression pointers that point at each other, the
+	// name of the second points into it (and a variant where the walk starts after a label)
+	encName := append(append([]byte{0x20}, []byte("FHEPFCELFDFEEBFEEJEPEOCACACACACA")...), 0)
+	cyc := func(hops int, labelFirst bool) []byte {
+		b := []byte{0, 9, 0x85, 0, 0, 0, 0, 2, 0, 0, 0, 0}
+		b = append(b, encName...)
+		x := len(b) + 10
+		b = append(b, 0, 0x20, 0, 1, 0, 0, 0, 60, 0, byte(2*hops))
+		for k := 0; k < hops; k++ {
+			t := x + 2*((k+1)%hops)
+			b = append(b, 0xC0|byte(t>>8), byte(t))
+		}
+		if labelFirst {
+			b = append(b, encName[:33]...)
+		}
+		b = append(b, 0xC0|byte(x>>8), byte(x), 0, 0x20, 0, 1, 0, 0, 0, 60, 0, 6, 0, 0, 10, 0, 0, 1)
+		return b
+	}
+	add("nbtns.NBTNSPacket.Unmarshal", nonNil(pkb, append([]byte{0, 1, 0x01, 0x10, 0, 1, 0, 0, 0, 0, 0, 0, 0x20}, append([]byte("FHEPFCELFDFEEBFEEJEPEOCACACACACA"), 0, 0, 0x20, 0, 1)...), cyc(2, false), cyc(3, true)), func(in []byte) { (&nbtns.NBTNSPacket{}).Unmarshal(in) })
 	es = append(es, Entry{Name: "nbtns.FirstLevelDecode", Text: true, Small: true, Seeds: strs("FHEPFCELFDFEEBFEEJEPEOCACACACACA", "FHEPFCELFDFEEBFEEJEPEOCACACACACA.corp.example", ""),
 		Call: func(in []byte) { nbtns.FirstLevelDecode(string(in)) }})
 
